@@ -130,6 +130,19 @@ memmove(void *dst, const void *src, size_t n)
 	return dst;
 }
 
+/* memcpy as a byte loop with concrete indices, for the same reason as memmove:
+ * CBMC's built-in turns a copy into an array inside a struct into an update of
+ * the whole enclosing object, after which no field of it is constant any more */
+void *
+memcpy(void *dst, const void *src, size_t n)
+{
+	unsigned char       *d = dst;
+	const unsigned char *s = src;
+	for (size_t i = 0; i < n; i++)
+		d[i] = s[i];
+	return dst;
+}
+
 /* memcmp as a byte loop: no access for n == 0, so memcmp(NULL, p, 0) (sub.c
  * with the empty topic; harmless on every platform, DESIGN R6) is not flagged */
 int
